@@ -11,8 +11,10 @@ import (
 	"github.com/ipfs/go-cid"
 	carv2 "github.com/ipld/go-car/v2"
 	"github.com/ipld/go-car/v2/blockstore"
+	"github.com/ipld/go-car/v2/index"
 	"github.com/ipld/go-car/v2/storage"
 	"github.com/multiformats/go-multicodec"
+	"github.com/multiformats/go-multihash"
 )
 
 // kind "store": histories of operations on a writable store (see coq/theories/RunStore.v for the
@@ -57,9 +59,12 @@ func (o wOpts) v2() []carv2.Option {
 // faultFile wraps an *os.File: every Write/WriteAt call consumes one entry of the fault script
 // (-1 = no fault; k >= 0 = only the first min(k,len) bytes are written and an error is returned).
 type faultFile struct {
-	f      *os.File
-	faults []int
-	seq    int64 // cursor for sequential Write
+	f        *os.File
+	faults   []int
+	seq      int64 // cursor for sequential Write
+	borrowed bool  // f belongs to the blockstore (verif hook): not ours to close
+	lens     []int // length of the buffer of every call so far
+	hits     int   // injected faults so far
 }
 
 var errInjected = io.ErrShortWrite
@@ -75,9 +80,11 @@ func (ff *faultFile) next() int {
 func (ff *faultFile) ReadAt(p []byte, off int64) (int, error) { return ff.f.ReadAt(p, off) }
 func (ff *faultFile) WriteAt(p []byte, off int64) (int, error) {
 	k := ff.next()
+	ff.lens = append(ff.lens, len(p))
 	if k < 0 {
 		return ff.f.WriteAt(p, off)
 	}
+	ff.hits++
 	if k > len(p) {
 		k = len(p)
 	}
@@ -98,11 +105,21 @@ type writeOnlyFile struct{ ff *faultFile }
 
 func (w writeOnlyFile) Write(p []byte) (int, error)              { return w.ff.Write(p) }
 func (w writeOnlyFile) WriteAt(p []byte, off int64) (int, error) { return w.ff.WriteAt(p, off) }
+func (w writeOnlyFile) Truncate(n int64) error                   { return w.ff.Truncate(n) }
+
+// noTruncFile is a WriterAt that can neither be read nor truncated (kind 4, CARv1 only: a failed
+// partial write cannot be taken back, as on a plain io.Writer)
+type noTruncFile struct{ ff *faultFile }
+
+func (w noTruncFile) Write(p []byte) (int, error)              { return w.ff.Write(p) }
+func (w noTruncFile) WriteAt(p []byte, off int64) (int, error) { return w.ff.WriteAt(p, off) }
 
 // faultStream is a plain io.Writer (kind 3)
 type faultStream struct {
 	buf    bytes.Buffer
 	faults []int
+	lens   []int
+	hits   int
 }
 
 func (fs *faultStream) Write(p []byte) (int, error) {
@@ -111,9 +128,11 @@ func (fs *faultStream) Write(p []byte) (int, error) {
 		k = fs.faults[0]
 		fs.faults = fs.faults[1:]
 	}
+	fs.lens = append(fs.lens, len(p))
 	if k < 0 {
 		return fs.buf.Write(p)
 	}
+	fs.hits++
 	if k > len(p) {
 		k = len(p)
 	}
@@ -164,7 +183,9 @@ func (s *storeSession) closeHandles() {
 		s.bs = nil
 	}
 	if s.ff != nil {
-		s.ff.f.Close()
+		if !s.ff.borrowed {
+			s.ff.f.Close()
+		}
 		s.ff = nil
 	}
 	s.sc = nil
@@ -198,9 +219,76 @@ func faultsFromVal(v Val) []int {
 	return out
 }
 
-// runStoreImpl executes a history on the real library.  Blockstore sessions ignore the fault
-// script (fault injection there needs the verif hook; see the C16 producer).
+// dataWriterInterposer is the add-only verif hook of the blockstore front-end
+// (v2/blockstore/verif_hooks.go, notes/hooks/c16-blockstore-writer.patch).  Asserted dynamically
+// so that the harness still builds against a tree that does not carry the hook.
+type dataWriterInterposer interface {
+	VerifInterposeDataWriter(func(io.WriterAt) io.WriterAt)
+}
+
+// blockstoreOpenCalls: write calls of OpenReadWrite on an empty file (pragma for CARv2, then the
+// header's length varint and body).  They happen before the hook can be installed, so the
+// corresponding entries of a blockstore fault script must be "no fault".
+func blockstoreOpenCalls(o wOpts) int {
+	if o.v1 {
+		return 2
+	}
+	return 3
+}
+
+// interposeFaults routes the blockstore's data writer through a faultFile consuming the given
+// script.  Finalize writes pragma/index/header through the *os.File directly: those calls are
+// out of the hook's reach and consume no entry (see notes/design/C16.md).
+func (s *storeSession) interposeFaults(faults []int) {
+	if len(faults) == 0 {
+		return
+	}
+	h, ok := interface{}(s.bs).(dataWriterInterposer)
+	if !ok {
+		panic("blockstore fault injection needs the verif hook VerifInterposeDataWriter (notes/hooks/c16-blockstore-writer.patch)")
+	}
+	h.VerifInterposeDataWriter(func(w io.WriterAt) io.WriterAt {
+		s.ff = &faultFile{f: w.(*os.File), faults: faults, borrowed: true}
+		return s.ff
+	})
+}
+
+// storeExtra lets a producer observe more of a session without changing runStoreImpl:
+// afterStep (if set) returns extra values appended to each step's observation.
+type storeExtra struct {
+	afterStep func(s *storeSession) []Val
+	callLens  []int // out: buffer length of every intercepted write call of the session
+	hits      int   // out: injected faults that were actually consumed
+}
+
+// indexCount: number of records in the store's in-memory insertion index
+func (s *storeSession) indexCount() uint64 {
+	var idx index.Index
+	switch {
+	case s.bs != nil:
+		idx = s.bs.Index()
+	case s.wc != nil:
+		idx = s.wc.Index()
+	default:
+		return 0
+	}
+	ii, ok := idx.(*index.InsertionIndex)
+	if !ok {
+		return 0
+	}
+	var n uint64
+	ii.ForEach(func(multihash.Multihash, uint64) error { n++; return nil })
+	return n
+}
+
+// runStoreImpl executes a history on the real library.  Blockstore sessions honour the fault
+// script through the verif hook (data-writer calls only; the entries of the open phase must be
+// "no fault").
 func runStoreImpl(work string, kind uint64, o wOpts, roots []cid.Cid, faults []int, ops VL) Val {
+	return runStoreImplX(work, kind, o, roots, faults, ops, nil)
+}
+
+func runStoreImplX(work string, kind uint64, o wOpts, roots []cid.Cid, faults []int, ops VL, x *storeExtra) Val {
 	ctx := context.Background()
 	dir, err := os.MkdirTemp(work, "st")
 	if err != nil {
@@ -213,6 +301,17 @@ func runStoreImpl(work string, kind uint64, o wOpts, roots []cid.Cid, faults []i
 	switch kind {
 	case 0:
 		s.bs, openErr = blockstore.OpenReadWrite(s.path, roots, o.v2()...)
+		if openErr == nil && len(faults) > 0 {
+			nOpen := blockstoreOpenCalls(o)
+			for i := 0; i < nOpen && i < len(faults); i++ {
+				if faults[i] >= 0 {
+					panic("blockstore fault script: open-phase entries cannot be injected")
+				}
+			}
+			if len(faults) > nOpen {
+				s.interposeFaults(faults[nOpen:])
+			}
+		}
 	case 1, 2:
 		f, err := os.OpenFile(s.path, os.O_RDWR|os.O_CREATE, 0o666)
 		if err != nil {
@@ -230,6 +329,13 @@ func runStoreImpl(work string, kind uint64, o wOpts, roots []cid.Cid, faults []i
 	case 3:
 		s.stream = &faultStream{faults: faults}
 		s.wc, openErr = storage.NewWritable(s.stream, roots, o.v2()...)
+	case 4:
+		f, err := os.OpenFile(s.path, os.O_RDWR|os.O_CREATE, 0o666)
+		if err != nil {
+			panic(err)
+		}
+		s.ff = &faultFile{f: f, faults: faults}
+		s.wc, openErr = storage.NewWritable(noTruncFile{s.ff}, roots, o.v2()...)
 	}
 	if openErr != nil {
 		return VL{outErr(openErr), VL{}, VB(nil)}
@@ -354,6 +460,9 @@ func runStoreImpl(work string, kind uint64, o wOpts, roots []cid.Cid, faults []i
 			var err error
 			if kind == 0 {
 				s.bs, err = blockstore.OpenReadWrite(s.path, roots2, o2.v2()...)
+				if err == nil {
+					s.interposeFaults(rest)
+				}
 			} else {
 				f, ferr := os.OpenFile(s.path, os.O_RDWR, 0o666)
 				if ferr != nil {
@@ -373,10 +482,21 @@ func runStoreImpl(work string, kind uint64, o wOpts, roots []cid.Cid, faults []i
 			panic("unknown op " + tag)
 		}
 		cur := s.fileBytes()
-		obs = append(obs, VL{out, vbool(!bytes.Equal(cur, s.prev))})
+		so := VL{out, vbool(!bytes.Equal(cur, s.prev))}
+		if x != nil && x.afterStep != nil {
+			so = append(so, x.afterStep(s)...)
+		}
+		obs = append(obs, so)
 		s.prev = cur
 		if stop {
 			break
+		}
+	}
+	if x != nil {
+		if s.ff != nil {
+			x.callLens, x.hits = s.ff.lens, s.ff.hits
+		} else if s.stream != nil {
+			x.callLens, x.hits = s.stream.lens, s.stream.hits
 		}
 	}
 	return VL{outNil(), obs, VB(s.prev)}
